@@ -283,7 +283,7 @@ package ristretto
 //@   atomic
 //@   requires p != nil
 //@   modifies p.evict.used, p.evict.keyCosts[*], gcMtot[*]
-//@   ensures [C03,C13] #map wfLFU(p.evict) && gcHas(p.evict.keyCosts, key) == old(gcHas(p.evict.keyCosts, key)) && (gcHas(p.evict.keyCosts, key) ==> p.evict.keyCosts[key] == cost)
+//@   ensures [C03,C06,C13] #map wfLFU(p.evict) && gcHas(p.evict.keyCosts, key) == old(gcHas(p.evict.keyCosts, key)) && (gcHas(p.evict.keyCosts, key) ==> p.evict.keyCosts[key] == cost)
 //@   ensures [C03] #used p.evict.used == old(p.evict.used)+ite(old(gcHas(p.evict.keyCosts, key)), cost-old(p.evict.keyCosts[key]), int64(0))
 //@   ensures [C13] #frame forall k uint64 :: k != key ==> gcHas(p.evict.keyCosts, k) == old(gcHas(p.evict.keyCosts, k)) && p.evict.keyCosts[k] == old(p.evict.keyCosts[k])
 //@   ensures [C17] #conserved p.metrics != nil && p.evict.metrics == p.metrics ==> costSlack(p.metrics, p.evict) == old(costSlack(p.metrics, p.evict)) && keySlack(p.metrics, p.evict) == old(keySlack(p.metrics, p.evict))
@@ -692,6 +692,7 @@ package ristretto
 //@   at call Add#1 mark beforeAdd
 //@   at call Add#1 assume [hypothesis] #distinct-wrappers !gcSameRef(c.onEvict, c.onReject)
 //@   at call Set#* assert [C04,C13] #stored-only-if-admitted added
+//@   at call Set#* assert [C02,C04] #stores-new-items-only i.flag == itemNew
 //@   at call onReject#* assert [C04] #rejected-only-if-not-admitted !added && gcCalls(c.onReject) == oldat("beforeAdd", gcCalls(c.onReject))
 //@   loop 2 invariant [C17] #conserved conserved(c)
 //@   at call Set#1 assert [C17] #hint-admitted c.Metrics == nil || (costSlack(c.Metrics, c.cachePolicy.evict) == 0 && keySlack(c.Metrics, c.cachePolicy.evict)+1 == 0)
